@@ -16,6 +16,7 @@
 //   PullReader             sdk::metrics::MetricReader with a per-instrument-type temporality map
 //   flatten()              deep copy of a ResourceMetrics into plain structs at callback time
 //   SilentLogHandler       counts SDK diagnostics, prints nothing
+//   Watchdog               bounded wall time per real-thread case (hang candidates, exit status 70)
 #pragma once
 
 #include <chrono>
@@ -24,6 +25,7 @@
 #include <memory>
 #include <set>
 #include <string>
+#include <thread>
 #include <vector>
 
 #include "opentelemetry/common/attribute_value.h"
@@ -69,6 +71,48 @@ inline int64_t wait_clock_after(int64_t after)
     n = now_ns();
   return n;
 }
+
+// ---------------------------------------------------------------------------------------------
+// watchdog for the real-thread modes.  A case that runs longer than the limit is not an oracle
+// verdict: it is written as <property>/hang/<what> and the process leaves with the driver's hang
+// status (70); the driver re-runs the case alone and only a second expiry becomes a violation.
+// ---------------------------------------------------------------------------------------------
+class Watchdog
+{
+public:
+  explicit Watchdog(int limit_s) : limit_ns_(static_cast<int64_t>(limit_s) * 1000000000ll)
+  {
+    std::thread([this] {
+      for (;;)
+      {
+        std::this_thread::sleep_for(std::chrono::milliseconds(250));
+        int64_t s = start_.load();
+        if (s && mono_ns() - s > limit_ns_)
+        {
+          const char *w = what_.load();
+          vf::report().violation("hang", w ? w : "case", "case " + std::to_string(vf::report().current_case()) + " did not finish within " +
+                                                               std::to_string(limit_ns_ / 1000000000ll) + " s");
+          _exit(70);
+        }
+      }
+    }).detach();
+  }
+  void begin(const char *what)
+  {
+    what_.store(what);
+    start_.store(mono_ns());
+  }
+  void end() { start_.store(0); }
+
+private:
+  static int64_t mono_ns()
+  {
+    return std::chrono::duration_cast<std::chrono::nanoseconds>(std::chrono::steady_clock::now().time_since_epoch()).count();
+  }
+  int64_t limit_ns_;
+  vf::raw_atomic<int64_t> start_{0};
+  vf::raw_atomic<const char *> what_{nullptr};
+};
 
 // ---------------------------------------------------------------------------------------------
 // SDK diagnostics: counted, never printed
